@@ -44,7 +44,18 @@ int main(void){
     if (k == nm){ mode = 1; mask = m0; } else { mode = 0; mask = masks[k]; } }
 #endif
   uk_note("mask", (long)mask); uk_note("m0", (long)m0);
+  mm_armed = 1;
   rc = U(uriNormalizeSyntaxExMm)(&u, mask, &mm);
+  mm_armed = 0;
+#ifdef FAILING
+  if (mm_failed){
+    uk_assert(rc == URI_ERROR_MALLOC, "C14: normalisation with a failed allocation returns URI_ERROR_MALLOC");
+    U(uriFreeUriMembersMm)(&u, &mm);                       /* the caller's ordinary cleanup of the URI it passed */
+    uk_assert(uk_live() == 0, "C14: nothing stays allocated after a failed normalisation and uriFreeUriMembers");
+    U(uriFreeUriMembersMm)(&u, &mm);
+    uk_cover("alloc-failure-injected"); if (!owned) uk_cover("alloc-failure-borrowed"); return 0;
+  }
+#endif
   uk_assert(rc == URI_SUCCESS, "C08: normalisation succeeds");
   if (rc != URI_SUCCESS){ U(uriFreeUriMembersMm)(&u, &mm); return 0; }
   en = on_normalize(t, n, &s, mode == 0 ? mask : 63u, exp, tmp, tmp2);
